@@ -14,8 +14,8 @@ package smtp
 //@   ensures inv: drInv(r)
 //@   ensures monotone: r.r.pos >= old(r.r.pos)
 //@   ensures @C06,C02 skipped-only-an-end-marker: ok ==> r.state == 5 && dS(r.r.in, r.start, r.r.pos) == 5 && noMoreOutput(old(dS(r.r.in, r.start, r.r.pos)), r.r.in, old(r.r.pos))
-//@   ensures @C06 otherwise-nothing-consumed: !ok ==> r.state == old(r.state) && r.r.pos == old(r.r.pos)
-//@   ensures @C06 more-of-the-message-follows: !ok ==> !noMoreOutput(dS(r.r.in, r.start, r.r.pos), r.r.in, r.r.pos) || r.r.iofail
+//@   ensures @C06,C01,C02 otherwise-nothing-consumed: !ok ==> r.state == old(r.state) && r.r.pos == old(r.r.pos)
+//@   ensures @C06,C01,C02 more-of-the-message-follows: !ok ==> !noMoreOutput(dS(r.r.in, r.start, r.r.pos), r.r.in, r.r.pos) || r.r.iofail
 //@   ensures @C02 no-read-after-end: old(r.state) == 5 ==> ok && r.r.pos == old(r.r.pos)
 
 //@ contract (*dataReader).Read(r, b) (n, err)
